@@ -25,7 +25,7 @@ def cases(ctx, pf, tag, reps_q=4, reps_t=25, uniform=False, nmin=1, nmax_q=3, nm
     reps = reps_q if ctx.tier == "quick" else reps_t
     for cname in (classes or gen.CLASSES):
         for k in range(reps):
-            fs = gen.mesh_case(rng, cname, nmax=(nmax_q if ctx.tier == "quick" else nmax_t), uniform=uniform, nmin=nmin)
+            fs = gen.mesh_case(rng, cname, nmax=(nmax_q if ctx.tier == "quick" else nmax_t), uniform=uniform, nmin=nmin, big=(k % 20 == 1))
             yield rng, cname, fs, gen.build_mesh(pf, cname, fs)
 
 
